@@ -8,6 +8,11 @@ ALL = ["C%02d" % i for i in range(1, 21)]
 
 # pid -> (category, level text, level note, technique, design_ref)
 CHECKS = {
+ "C17": ("proof",
+         "25 theorems over Model/Retry.v: the back-off band (lo n <= retry_in n u <= hi n around min(I*M^n, Max), exact rationals, Go's truncating conversion), first attempt immediate, attempts counted and at most MaxRetries+1 for every label sequence mixing Next and NextCh, attempts never before the lower edge, Reset restores the fresh schedule, stopping when told, WithMaxAttempts (after fix 7eb790f): 0 <= calls <= n, at least one call when not stopped at start, nil iff a call succeeded. 'No attempt after close' is refuted with witnesses (Reset-then-close: known finding; the select race) and proved in its partial form. Tie: ~8,000 real retryIn samples with their exact jitter draws and ~330 real Next/NextCh/Reset/WithMaxAttempts runs per quick run, compared with the model and an independent oracle (only lower bounds on elapsed time are judged).",
+         "Trusted: Coq kernel+VM, harness+hook. Assumed: float rounding (1 ns tolerance, magnitudes below 2^40 ns), int64 overflow, select/timer/channel semantics, single-goroutine use.",
+         "Rocq/Coq proof (rational arithmetic, LTS invariants) + differential correspondence by vm_compute",
+         "DESIGN.md section 6, C17"),
  "C11": ("proof",
          "45 theorems over Model/Functions.v (collectFns, evalFunctions) and the audition model: first/last/top/bottom N folds equal firstn/lastn/stable sorted prefixes of the non-nil values for every N and sequence (never a panic; an error exactly on strings/arrays), collected arrays never contain nil, a computes variable holds the latest non-nil value, assignments are visible to later members of the same round and not to earlier ones, values persist across activation periods, end-to-end statements over run_audition, and sum/avg/med/min/max/abs/floor/ceil/round equal their mathematical definitions over the non-nil elements. The letter 'over the non-nil elements' is refuted for count/first/last/sorted with a witness (known finding) and proved for nil-free arrays. Tie: real collectFns/evalFunctions/expression evaluator/processAssignments on generated inputs and chains of clauses through the real audition, compared in Coq with the models and with independent oracles; a fixed corpus replays the two array-aliasing defects repaired in eeee4b8/7774142.",
          "Trusted: Coq kernel+VM, harness+hook. float64 as exact rationals (avg/med compared within 1e-9); govaluate modelled for the generated subset; sort.Sort modelled by a stable insertion sort (generator avoids bool/number ties in one sorted() argument list); log/sqrt/ndiff not modelled.",
